@@ -9,7 +9,7 @@
    every indexed structure with a sofa feature is indexed in the view of its own sofa. *)
 From Cassis Require Import Base Offsets.
 From Cassis Require Import Heap Schema Canon Lex LexProofs Reach ReachProofs ReachSpec XmiDoc Xmi XmiProofs XmiWf XmiDocOk
-                           XmiLoad XmiRt XmiRtProofs CorrC04 CorrC01 XmiExample.
+                           XmiResave XmiLoad XmiRt XmiRtProofs CorrC04 CorrC01 XmiExample.
 Open Scope Z_scope.
 
 (* enc_dec_feature_xmi: for every feature declaration and every slot value that is well-typed for it (feat_okb), what the
@@ -89,25 +89,40 @@ Theorem C01_xmi_ids_kept :
 Proof. exact xmi_ids_kept. Qed.
 Print Assumptions C01_xmi_ids_kept.
 
-(* xmi_resave_identical, the part that is proved: two well-formed CASes with the same canonical content — the CAS that was
-   saved and any CAS carrying the content of the loaded one — write documents that are both closed and have the same
-   denotation.
-   NOT PROVED (full statement): under the same premises, and equal sofa lists, the two documents are equal up to element
-   and attribute order,  xdoc_perm_eqb da db = true  (CorrC04.xdoc_perm_eqb).  What is missing is the converse of the codec
-   lemmas: that every contribution of the writer (attribute / child elements) is a function of the canonical value of the
-   feature (an encoder from ccas, eleven branches).  The implementation's second to_xmi() is compared with the first at the
-   infoset level on every generated case (CorrC01.check_resave). *)
-Theorem C01_xmi_resave_identical_partial :
+(* xmi_resave_identical, over canonical content: two well-formed CASes with the same canonical content (views and sofa data,
+   structures under the same ids with the same types and values, references as ids, members; up to ""/null inside string
+   arrays and lists) are saved to the same elements — same namespaces, tags, attributes in the same order, child elements in
+   the same order; only the order of the elements within the document may differ (in the writer it follows the ids and the
+   order of the views).  Each element is a function of its canonical entry (XmiResave.encc_fs / encc_sofa / encc_view). *)
+Theorem C01_xmi_resave_identical :
   forall (fmt : flt -> string) (parse : string -> option flt),
   (forall x, parse (fmt x) = Some x) -> (forall x, tok_ok (fmt x)) ->
   forall s ca cb da db ca' cb',
   wf_inb s ca = true -> wf_inb s cb = true ->
   (do x <- canon_xmi s ca ;; Ok (norm_xmi s x)) = (do x <- canon_xmi s cb ;; Ok (norm_xmi s x)) ->
   save_xmi fmt s ca = Ok (da, ca') -> save_xmi fmt s cb = Ok (db, cb') ->
-  denote_xmi parse s da = denote_xmi parse s db
-  /\ doc_ok_xmi parse s da = true /\ doc_ok_xmi parse s db = true.
-Proof. exact xmi_resave_same_denotation. Qed.
-Print Assumptions C01_xmi_resave_identical_partial.
+  Permutation da db.
+Proof. exact xmi_resave_identical_eq. Qed.
+Print Assumptions C01_xmi_resave_identical.
+(* the written document is, up to element order, the document of its own canonical content *)
+Theorem C01_saved_document_is_function_of_content :
+  forall (fmt : flt -> string) (parse : string -> option flt),
+  (forall x, parse (fmt x) = Some x) -> (forall x, tok_ok (fmt x)) ->
+  forall s c d c' cc, wf_inb s c = true -> save_xmi fmt s c = Ok (d, c') ->
+  (do x <- canon_xmi s c ;; Ok (norm_xmi s x)) = Ok cc -> Permutation d (doc_of_canon fmt s cc).
+Proof. exact save_xmi_canon. Qed.
+Print Assumptions C01_saved_document_is_function_of_content.
+(* after a round trip: any well-formed CAS carrying the content of the loaded CAS is saved to the elements of the document
+   that was loaded.  (The reader's result type lcas has no writer model; a CAS with that content stands for it.) *)
+Theorem C01_xmi_resave_after_load :
+  forall (fmt : flt -> string) (parse : string -> option flt),
+  (forall x, parse (fmt x) = Some x) -> (forall x, tok_ok (fmt x)) ->
+  forall s c d c1 c2 cb db cb',
+  wf_rtb s c = true -> save_xmi fmt s c = Ok (d, c1) -> load_xmi parse s false d = Ok c2 ->
+  wf_inb s cb = true -> (do x <- canon_xmi s cb ;; Ok (norm_xmi s x)) = canon_loaded s c2 ->
+  save_xmi fmt s cb = Ok (db, cb') -> Permutation db d.
+Proof. exact xmi_resave_after_load. Qed.
+Print Assumptions C01_xmi_resave_after_load.
 
 (* the lexical layer underneath: token lists, decimal integers, hex bytes, UTF-8 *)
 Theorem C01_tokens_roundtrip : forall l, Forall tok_ok l -> split_ws (join l) = l.
